@@ -28,4 +28,9 @@ theorem tie_proj_from_array (g : Grid) (c r : Rat) :
     Gen.proj_from_array c r g.dx g.dy (g.uplx, g.uply) = (g.projX c, g.projY r) := by
   simp [Gen.proj_from_array, Gen.get_corner_and_scale, Grid.projX, Grid.projY]
 
+/-- `AreaDefinition.resolution` hands out the SIGNED pixel sizes (negative on a flipped axis); the bucket resampler's cell
+formula and the slicer's buffer both read the pixel size through this property -/
+theorem tie_area_resolution (g : Grid) : Gen.area_resolution g.dx g.dy = (g.dx, g.dy) := by
+  simp [Gen.area_resolution]
+
 end PyresampleModel.Tie
